@@ -44,9 +44,33 @@ ASSUMPTIONS = ["guard operands are integers produced by the compiler's %f format
 MAXINT = 2147483647
 GOEXIT_RETHROW = False
 
+INFRA_PAT = re.compile(r"\[timeout after|no space left on device|signal: killed|cannot allocate memory|resource temporarily unavailable|"
+                       r"fork/exec|text file busy|too many open files|out of memory", re.I)
+
+
+def infra(rc, *texts):
+    """does this process result look like an infrastructure failure (timeout, disk, memory)?  Such cases are
+    skipped with a note, never reported."""
+    return rc == 124 or any(t and INFRA_PAT.search(t) for t in texts)
+
+
+def note_skip(ctx, what):
+    ctx.notes.append("skipped (infrastructure): " + what[:200])
+    ctx.cov["skipped_infrastructure"] = ctx.cov.get("skipped_infrastructure", 0) + 1
+
+
+
 
 def prepare(ctx):
-    C.ensure_gopherjs()
+    ctx.c08_skip = False
+    try:
+        C.ensure_gopherjs()
+    except C.BuildError as e:
+        if INFRA_PAT.search(str(e)):
+            ctx.notes.append("skipped (infrastructure): building gopherjs failed: " + str(e)[-200:])
+            ctx.c08_skip = True
+        else:
+            raise
     gen_consts(ctx)
 
 
@@ -77,14 +101,22 @@ def gen_consts(ctx):
     # probe: the repair of goexit-swallowed-by-deferring-frame ($curGoroutine.exitFrames) selects the ImplPanic variant
     global GOEXIT_RETHROW
     GOEXIT_RETHROW = "exitFrames" in gor
+    # probe: repair of replaced-panic-resurrected-after-recover (re-queue a panic only when going to sleep)
+    mcd = re.search(r"var \$callDeferred = .*?\n};", gor, re.S)
+    pushback_fixed = bool(mcd and re.search(r"\$panicStackDepth !== null\s*&&\s*\$curGoroutine\.asleep", mcd.group(0)))
+    # probe: repair of panic-during-goexit-swallowed (the catch clause of $goroutine re-throws non-null exceptions)
+    mgo = re.search(r"var \$go = .*?\n};", gor, re.S)
+    swallow_fixed = bool(mgo and re.search(r"catch \(err\) \{[^}]*err [!=]== null", mgo.group(0), re.S))
     txt = ("(* generated by harness/py/props/c08.py from compiler/prelude/{types,goroutines}.js and compiler/expressions.go — do not edit *)\n"
            "From Coq Require Import ZArith.\nLocal Open Scope Z_scope.\n"
            "Definition gen_makeslice_len_max : Z := %d.\nDefinition gen_makeslice_cap_max : Z := %d.\n"
            "Definition gen_makechan_max : Z := %d.\nDefinition gen_makemap_max : Z := %d.\n"
            "Definition gen_recover_delta : Z := %d.\nDefinition gen_goexit_rethrow : bool := %s.\n"
            "Definition gen_substring_defaults_high : bool := %s.\nDefinition gen_string_index_checked : bool := %s.\n"
+           "Definition gen_pushback_asleep_only : bool := %s.\nDefinition gen_exit_swallows_null_only : bool := %s.\n"
            % (mslen, mscap, mchan, mmap, rdelta, "true" if GOEXIT_RETHROW else "false",
-              "true" if sub_fixed else "false", "true" if stridx_fixed else "false"))
+              "true" if sub_fixed else "false", "true" if stridx_fixed else "false",
+              "true" if pushback_fixed else "false", "true" if swallow_fixed else "false"))
     C.write_if_changed(os.path.join(C.COQ, "Gen", "C08_Consts.v"), txt)
 
 
@@ -194,6 +226,8 @@ def guards_stub(ctx):
     cases = a1_cases(r, ctx.quick)
     rc, out, err = C.sh2(["node", os.path.join(C.JS, "c08_guards.js"), C.REPO], inp=json.dumps([dict(op=o, a=a) for o, a in cases]).encode(), timeout=300)
     if rc != 0:
+        if infra(rc, err):
+            return note_skip(ctx, "c08_guards.js: rc=%s %s" % (rc, err[-150:]))
         raise C.BuildError("c08_guards.js failed: " + err[-600:])
     results = json.loads(out)
     gcases, idxmap = [], []
@@ -219,7 +253,10 @@ def guards_stub(ctx):
             idxmap.append(i)
     res, log = coq_eval(ctx, "a1", "Definition cases : list gcase := [\n" + ";\n".join(gcases) + "].\n", [("M", "gmismatches cases")])
     if res is None:
-        ctx.violation("model-eval-failed", "Coq evaluation of the guard model failed", dict(log=log), concrete=False)
+        if infra(None, log):
+            note_skip(ctx, "Coq evaluation (A1): " + log[-120:])
+        else:
+            ctx.violation("model-eval-failed", "Coq evaluation of the guard model failed", dict(log=log), concrete=False)
     else:
         for k in res["M"]:
             op, a = cases[idxmap[k]]
@@ -273,9 +310,13 @@ def guards_program(ctx):
     C.write_go_program(d, {"main.go": src}, module="verifc08")
     rc, log = C.gopherjs_build(d, timeout=600)
     if rc != 0:
+        if infra(rc, log):
+            return note_skip(ctx, "guard program build: " + log[-150:])
         ctx.violation("guard-program-build-failed", "gopherjs build failed on the guard program", dict(log=log[-1500:]), concrete=False)
         return
     rc, out, err = C.run_node(os.path.join(d, "out.js"), cwd=d, timeout=300)
+    if infra(rc, err):
+        return note_skip(ctx, "guard program run: rc=%s %s" % (rc, err[-150:]))
     real = parse_guard_output(out, len(cases))
     if "end" not in out.split("\n")[-3:]:
         ctx.violation("guard-program-died", "the compiled guard program did not run to its end", dict(stderr=err[-800:], rc=rc), concrete=False)
@@ -284,6 +325,9 @@ def guards_program(ctx):
     dn = os.path.join(ctx.work, "guards_native")
     C.write_go_program(dn, {"main.go": GP.guard_program([cases[i] for i in nat_idx])}, module="verifc08")
     rc2, out2, err2 = C.sh2(["go", "run", "."], cwd=dn, env=C.goenv(), timeout=600)
+    if infra(rc2, err2) or "end" not in err2:
+        note_skip(ctx, "native run of the guard program: rc=%s %s" % (rc2, err2[-150:]))
+        nat_idx = []
     native = dict(zip(nat_idx, parse_guard_output(err2, len(nat_idx))))
     gcases, idxmap = [], []
     dist = {}
@@ -312,7 +356,10 @@ def guards_program(ctx):
         return k, coq_eval(ctx, "a2_%d" % k, "Definition cases : list gcase := [\n" + ";\n".join(cs) + "].\n", [("M", "gmismatches cases")])
     for k, (res, log) in C.parallel_map(run_shard, shards):
         if res is None:
-            ctx.violation("model-eval-failed", "Coq evaluation of the guard model failed", dict(log=log), concrete=False)
+            if infra(None, log):
+                note_skip(ctx, "Coq evaluation (A2): " + log[-120:])
+            else:
+                ctx.violation("model-eval-failed", "Coq evaluation of the guard model failed", dict(log=log), concrete=False)
             continue
         for j in res["M"]:
             i = idxmap[k + j]
@@ -336,18 +383,23 @@ def native_env():
 
 
 def build_and_run_both(ctx, name, src):
+    """-> (results, "") | (None, reason) | ("skip", reason)"""
     d = os.path.join(ctx.work, name)
     C.write_go_program(d, {"main.go": src}, module="verifc08")
     rc, log = C.gopherjs_build(d, timeout=600)
     if rc != 0:
-        return None, "gopherjs build failed: " + log[-800:]
-    rc, out, err = C.run_node(os.path.join(d, "out.js"), cwd=d, timeout=120)
-    rc2, out2, err2 = C.sh2(["go", "run", "."], cwd=d, env=C.goenv(), timeout=300)
+        return ("skip" if infra(rc, log) else None), "gopherjs build failed: " + log[-800:]
+    rc, out, err = C.run_node(os.path.join(d, "out.js"), cwd=d, timeout=300)
+    rc2, out2, err2 = C.sh2(["go", "run", "."], cwd=d, env=C.goenv(), timeout=600)
+    if infra(rc, err) or infra(rc2, err2) or "end" not in err2:
+        return "skip", "run failed: rc=%s rc_go=%s %s" % (rc, rc2, (err + err2)[-200:])
     return (rc, out, err, rc2, out2, err2), ""
 
 
 def palette(ctx):
     res, why = build_and_run_both(ctx, "palette", G.PALETTE_PROGRAM)
+    if res == "skip":
+        return note_skip(ctx, "palette program: " + why)
     if res is None:
         ctx.violation("palette-build-failed", why, dict(log=why), concrete=False)
         return
@@ -415,6 +467,8 @@ def palette(ctx):
 
 def order(ctx):
     res, why = build_and_run_both(ctx, "order", G.ORDER_PROGRAM)
+    if res == "skip":
+        return note_skip(ctx, "order program: " + why)
     if res is None:
         ctx.violation("order-build-failed", why, dict(log=why), concrete=False)
         return
@@ -465,6 +519,16 @@ SEEDS = [
     [[("deferclo", [("recover",)]), ("deferclo", [("call", 1), ("recover",)]), ("panic", ("int", 1))], [("deferclo", [("recover",)]), ("panic", ("int", 2))]],
     [[("deferclo", [("recover",)]), ("deferclo", [("call", 1)]), ("panic", ("int", 1))], [("deferclo", [("recover",)]), ("trace", 1)]],
     [[("panic", ("int", 7))]],
+    [[("deferclo", [("panic", ("int", 2))]), ("goexit",)]],                                                                   # panic during Goexit, unrecovered (finding)
+    [[("deferclo", [("recover",)]), ("deferclo", [("panic", ("int", 2))]), ("goexit",), ("trace", 9)]],                      # ... recovered: Goexit resumes
+    # deferred calls that really suspend the goroutine: while panicking, on normal return, during Goexit, nested
+    [[("trace", 1), ("deferclo", [("recover",), ("trace", 2)]), ("deferclo", [("block",), ("trace", 3)]), ("trace", 4), ("panic", ("int", 1)), ("trace", 5)]],
+    [[("deferclo", [("block",), ("recover",), ("setr", 12)]), ("trace", 1), ("block",), ("trace", 2), ("panic", ("rt", 0))]],
+    [[("deferclo", [("recover",)]), ("call", 1), ("trace", 9)], [("trace", 1), ("deferclo", [("trace", 2), ("block",), ("trace", 3)]), ("block",), ("trace", 4), ("panic", ("int", 2))]],
+    [[("deferclo", [("block",), ("trace", 1)]), ("deferclo", [("block",), ("trace", 2)]), ("trace", 3)]],
+    [[("deferclo", [("trace", 1), ("block",), ("trace", 2)]), ("call", 1), ("trace", 9)], [("deferclo", [("block",), ("trace", 3)]), ("goexit",)]],
+    [[("deferclo", [("recover",), ("block",), ("tracex",)]), ("deferclo", [("callclo", [("block",)]), ("panic", ("int", 3))]), ("setr", 11), ("panic", ("int", 1))]],
+    [[("defer", 1), ("setx", 5), ("block",), ("panic", ("int", 1))], [("block",), ("tracex",), ("recover",)]],
     [[("deferclo", [("callclo", [("deferclo", [("trace", 3)])]), ("trace", 5)]), ("goexit",)]],                        # a deferring callee of a deferred call during Goexit
     [[("deferclo", [("call", 2), ("trace", 5)]), ("call", 1), ("trace", 9)], [("deferclo", [("recover",)]), ("goexit",)], [("deferclo", [("trace", 3)])]],
     [[("deferclo", [("trace", 1)]), ("call", 1), ("trace", 9)], [("deferclo", [("trace", 2)]), ("call", 2), ("trace", 8)], [("deferclo", [("recover",), ("trace", 3)]), ("goexit",)]],
@@ -477,7 +541,9 @@ def b_programs(r, quick):
     n = int(os.environ.get("C08_DEV_N", "0")) or (230 if quick else 4000)
     progs = []
     for i, s in enumerate(SEEDS):
-        for fl in (FLAVOURS if not quick else [FLAVOURS[i % 3]]):
+        has_block = any(G.count_kind(b, "block") for b in s)
+        fls = [f for f in FLAVOURS if f["msg"]] if has_block else FLAVOURS
+        for fl in (fls if not quick else [fls[i % len(fls)]]):
             progs.append((s, fl))
     while len(progs) < n:
         fl = r.choice(FLAVOURS)
@@ -487,21 +553,22 @@ def b_programs(r, quick):
             kinds = r.sample(G.KINDS, r.randint(1, 4))
         else:
             kinds = [r.choice(G.NONBLOCKING_KINDS)]
-        p = G.gen_program(r, dict(goexit=goexit, kinds=kinds, calm=calm))
+        block = r.choice([0.0, 0.0, 0.8, 1.5]) if fl["msg"] else 0.0      # real suspension points (blocking flavours only)
+        p = G.gen_program(r, dict(goexit=goexit, kinds=kinds, calm=calm, block=block))
         progs.append((p, fl))
     return progs
 
 
-def b_signature(prog, impl_obs, go_obs):
-    if any(G.count_kind(b, "goexit") for b in prog):
-        if GOEXIT_RETHROW:
-            return ("goexit-behaviour-differs-from-go-after-repair",
-                    "a program with runtime.Goexit behaves differently from Go although the exitFrames repair is present")
-        return ("goexit-swallowed-by-deferring-frame",
-                "runtime.Goexit only unwinds to the nearest function that has defer statements; that function then returns normally and its callers continue")
-    return ("replaced-panic-resurrected-after-recover",
-            "a panic raised by a deferred call replaces the current panic; after the new panic is recovered the old (aborted) one is re-activated: "
-            "it continues to unwind / is returned by a later recover, and remaining deferred calls of the frame can be skipped")
+# class computed by Corr/C08_Eval.bclass -> signature of the recorded finding that explains the difference
+B_CLASS_SIG = {
+    1: ("replaced-panic-resurrected-after-recover",
+        "a panic raised by a deferred call replaces the current panic; after the new panic is recovered the old (aborted) one is re-activated: "
+        "it continues to unwind / is returned by a later recover, and remaining deferred calls of the frame can be skipped"),
+    2: ("panic-during-goexit-swallowed",
+        "an unrecovered panic raised by a deferred call while runtime.Goexit unwinds is swallowed by the catch clause of $goroutine; Go dies with the panic"),
+    3: ("goexit-swallowed-by-deferring-frame",
+        "runtime.Goexit only unwinds to the nearest function that has defer statements; that function then returns normally and its callers continue"),
+}
 
 
 def defer_programs(ctx):
@@ -515,28 +582,34 @@ def defer_programs(ctx):
         C.write_go_program(d, {"main.go": src}, module="verifc08")
         rc, log = C.gopherjs_build(d, timeout=600)
         if rc != 0:
-            return dict(build_error=log[-800:], src=src)
+            return dict(skip="gopherjs build: " + log[-200:]) if infra(rc, log) else dict(build_error=log[-800:], src=src)
         rc, out, err = C.run_node(os.path.join(d, "out.js"), cwd=d, timeout=300)
+        if infra(rc, err):
+            return dict(skip="node run: rc=%s %s" % (rc, err[-150:]))
         rc2, out2, err2 = C.sh2(["go", "run", "."], cwd=d, env=native_env(), timeout=600)
+        if infra(rc2, err2) or (rc2 != 0 and "panic:" not in err2 and "exit status" not in err2):
+            return dict(skip="native go run: rc=%s %s" % (rc2, err2[-150:]))
         ks = set()
         for b in prog:
             ks |= G.rt_kinds(b)
         single = G.PALETTE[sorted(ks)[0]][2] if (len(ks) == 1 and not fl["msg"]) else None
-        if not fl["msg"] and len(ks) > 1:
-            single = None
         ji = G.parse_run(out, err, rc, single, "js")
         gi = G.parse_run(err2, err2, rc2, single, "go")
         return dict(src=src, js=ji, go=gi, raw=dict(js_out=out[-1500:], js_err=err[-600:], go_err=err2[-1500:], rc=rc, rc_go=rc2))
 
     results = C.parallel_map(one, range(len(progs)))
     bcases, idxmap = [], []
-    dist = dict(flavours={}, with_goexit=0, fatal=0, max_depth=0, rt_kinds={}, recovered_values=0, events=0)
+    dist = dict(flavours={}, with_goexit=0, with_real_blocking=0, fatal=0, max_depth=0, rt_kinds={}, recovered_values=0, events=0)
     for i, ((prog, fl), res) in enumerate(zip(progs, results)):
+        if "skip" in res:
+            note_skip(ctx, "defer program %d: %s" % (i, res["skip"]))
+            continue
         npanic = sum(G.count_kind(b, "panic") for b in prog)
         ndefer = sum(G.count_kind(b, "defer") + G.count_kind(b, "deferclo") for b in prog)
         ctx.count(["b", prog, fl["name"]], nontrivial=(npanic >= 1 and ndefer >= 1))
         dist["flavours"][fl["name"]] = dist["flavours"].get(fl["name"], 0) + 1
         dist["with_goexit"] += any(G.count_kind(b, "goexit") for b in prog)
+        dist["with_real_blocking"] += any(G.count_kind(b, "block") for b in prog)
         dist["max_depth"] = max(dist["max_depth"], max(G.depth_of(b) for b in prog))
         for b in prog:
             for k in G.rt_kinds(b):
@@ -550,8 +623,11 @@ def defer_programs(ctx):
         dist["events"] += len(gev)
         dist["recovered_values"] += sum(1 for e in gev if e[0] == "rec" and e[1] is not None)
         rep.update(impl=dict(trace=jev, final=jfin), native=dict(trace=gev, final=gfin), raw=res["raw"])
-        for sig, line in gprob:
-            ctx.violation("native-go-output-unparsed", "native Go output not understood (%s): %s" % (sig, line[:200]), rep, concrete=False)
+        if gprob:
+            # the reference run itself was not understood: nothing can be concluded about the implementation
+            note_skip(ctx, "defer program %d: native Go output not understood (%s): %s" % (i, gprob[0][0], gprob[0][1][:100]))
+            res["skip"] = True
+            continue
         bad = False
         for sig, line in jprob:
             bad = True
@@ -559,60 +635,73 @@ def defer_programs(ctx):
                 ctx.violation(sig, "a recovered run-time error does not implement runtime.Error: " + line, rep)
             elif sig == "garbled-value":
                 ctx.violation("defer-program-value-not-an-integer", "the compiled program prints a variable / result that is not an integer: " + line[:100], rep)
-            else:
-                ctx.violation("defer-program-output-" + sig, "output of the compiled program not understood: " + line[:200], rep, concrete=False)
         # the property itself: same observable behaviour as Go
-        if (jev, jfin) != (gev, gfin) and not gprob:
-            sig, what = b_signature(prog, (jev, jfin), (gev, gfin))
-            res["_propsig"] = (sig, what)
-        if not bad and not gprob:
+        if (jev, jfin) != (gev, gfin):
+            res["_differs"] = True
+        if not bad:
             bcases.append("{| b_prog := %s; b_impl := %s; b_go := %s; b_use_go := true |}" % (G.coq_program(prog), G.coq_obs(jev, jfin), G.coq_obs(gev, gfin)))
             idxmap.append(i)
+        elif res.get("_differs"):
+            res["_class"] = 5
         if i < 2:
             ctx.sample(dict(kind="b", flavour=fl["name"], program=prog, impl_trace=jev, impl_final=jfin, native_trace=gev, native_final=gfin))
 
-    shard = 60
+    shard = 40
     shards = [(k, bcases[k:k + shard]) for k in range(0, len(bcases), shard)]
 
     def run_shard(s):
         k, cs = s
-        return k, coq_eval(ctx, "b_%d" % k, "Definition cases : list bcase := [\n" + ";\n".join(cs) + "].\n",
-                           [("MI", "bmismatches_impl cases"), ("MS", "bmismatches_spec cases"), ("MD", "bmodels_differ cases")])
-    models_differ = set()
-    impl_bad, spec_bad = set(), set()
-    for k, (res, log) in C.parallel_map(run_shard, shards):
+        return k, len(cs), coq_eval(ctx, "b_%d" % k, "Definition cases : list bcase := [\n" + ";\n".join(cs) + "].\n",
+                                    [("MI", "bmismatches_impl cases"), ("MS", "bmismatches_spec cases"), ("CL", "bclasses cases")])
+    impl_bad, spec_bad, evaluated = set(), set(), set()
+    for k, n, (res, log) in C.parallel_map(run_shard, shards):
         if res is None:
-            ctx.violation("model-eval-failed", "Coq evaluation of the panic models failed", dict(log=log), concrete=False)
+            if infra(None, log):
+                note_skip(ctx, "Coq evaluation of shard %d: %s" % (k, log[-120:]))
+            else:
+                ctx.violation("model-eval-failed", "Coq evaluation of the panic models failed", dict(log=log), concrete=False)
             continue
         impl_bad |= {idxmap[k + j] for j in res["MI"]}
         spec_bad |= {idxmap[k + j] for j in res["MS"]}
-        models_differ |= {idxmap[k + j] for j in res["MD"]}
+        for j, c in enumerate(res["CL"]):
+            results[idxmap[k + j]]["_class"] = c
+            evaluated.add(idxmap[k + j])
     nknown = 0
+    classes = {}
     for i, ((prog, fl), res) in enumerate(zip(progs, results)):
-        if "build_error" in res:
+        if "build_error" in res or "skip" in res:
             continue
         (jev, jfin, _), (gev, gfin, _) = res["js"], res["go"]
         rep = dict(kind="b", program=prog, flavour=fl["name"], go_source=res["src"], impl=dict(trace=jev, final=jfin), native=dict(trace=gev, final=gfin))
-        if "_propsig" in res:
-            sig, what = res["_propsig"]
-            if i in models_differ and i not in impl_bad:
+        cl = res.get("_class")
+        if cl is not None:
+            classes[cl] = classes.get(cl, 0) + 1
+        if res.get("_differs"):
+            if cl is None:
+                note_skip(ctx, "defer program %d differs from Go but the models could not be evaluated" % i)
+            elif cl in (1, 2, 3) and i not in impl_bad and i not in spec_bad:
                 nknown += 1               # predicted by the faithful model: one of the recorded findings
+                ctx.violation(B_CLASS_SIG[cl][0], B_CLASS_SIG[cl][1], rep)
+            elif cl == 4 and i not in impl_bad and i not in spec_bad:
+                nknown += 1
+                ctx.violation("several-recorded-findings-combined", "the program differs from Go; the faithful model predicts it, and only all recorded repairs together remove the difference", rep)
             else:
-                sig = "defer-panic-behaviour-differs-from-go"
-                what = "compiled program and native Go disagree on a defer program (trace / recovered values / results / final status)"
-            ctx.violation(sig, what, rep)
+                ctx.violation("defer-panic-behaviour-differs-from-go",
+                              "compiled program and native Go disagree on a defer program (trace / recovered values / results / final status)", rep)
         if i in impl_bad:
             ctx.violation("implpanic-model-mismatch", "ImplPanic (Coq transliteration of $callDeferred/$panic/$recover) and the compiled program disagree", rep, concrete=False)
         if i in spec_bad:
             ctx.violation("specpanic-vs-native-go", "SpecPanic (Coq Go-specification machine) and native Go disagree", rep, concrete=False)
-    dist["programs_where_models_differ"] = len(models_differ)
+    dist["model_classes"] = {str(k): v for k, v in sorted(classes.items())}
     dist["programs_differing_from_go_as_predicted"] = nknown
     ctx.cov["b_distribution"] = dist
     ctx.cov["b_programs"] = len(progs)
-    ctx.cov["b_programs_validated_against_both_models"] = len(bcases)
+    ctx.cov["b_programs_validated_against_both_models"] = len(evaluated)
 
 
 def correspond(ctx):
+    if getattr(ctx, "c08_skip", False):
+        return
     phases = os.environ.get("C08_DEV_PHASES", "AB")      # development aid only: restrict the phases
     if "A" in phases:
         guards_stub(ctx)
